@@ -27,13 +27,14 @@ def load_known(pid):
 
 
 def write_evidence(pid, tier, seed, coverage, assumptions, wall, violations):
-  os.makedirs(os.path.join(env.VERIF, "evidence"), exist_ok=True)
+  evdir = os.environ.get("VERIF_EVIDENCE_DIR") or os.path.join(env.VERIF, "evidence")
+  os.makedirs(evdir, exist_ok=True)
   ev = {
       "property_id": pid, "tier": tier, "seed": seed, "level": "other",
       "coverage": coverage, "assumptions": assumptions,
       "wall_s": round(wall, 1), "violations": violations,
   }
-  path = os.path.join(env.VERIF, "evidence", pid + ".json")
+  path = os.path.join(evdir, pid + ".json")
   with open(path + ".tmp", "w") as f:
     json.dump(ev, f, indent=1, sort_keys=True)
   os.replace(path + ".tmp", path)
